@@ -117,6 +117,8 @@ func RunC13(ch *core.Chooser, env *Env) *Outcome {
 	flushedSinceDNS := false
 	pct := []int{85, 95, 98, 99}[ch.Intn("hist.pct", 4)]
 	warm := ch.Intn("hist.warm", 4) == 3
+	floodRun := ch.Intn("hist.flood", 8) == 7
+	flooded := false
 
 	fail := func(class, detail string) *Outcome {
 		out.Violation = &Violation{Class: class, Detail: detail}
@@ -154,6 +156,45 @@ func RunC13(ch *core.Chooser, env *Env) *Outcome {
 		}
 		act := ch.Intn("hist.act", 20)
 		switch {
+		case act == 1 && !flooded && floodRun:
+			// a flood of distinct requests: whatever the engine memoises
+			// per request (bounded caches, counters) is pushed past its
+			// limits; one in 25 of them is compared with a fresh engine
+			flooded = true
+			n := 150 + ch.Intn("flood.n", 1400)
+			base := hosts[ch.Intn("q.host", len(hosts))]
+			bad := ""
+			for i := 0; i < n && bad == ""; i++ {
+				var o workload.Op
+				if i%3 == 2 {
+					o = workload.Op{Kind: workload.OpWeb, URL: fmt.Sprintf("https://f%d.%s/ads.js?i=%d", i, base, i), Src: fmt.Sprintf("https://s%d.%s/page", i, base), Type: rules.TypeScript}
+				} else {
+					o = workload.Op{Kind: workload.OpDNS, Host: fmt.Sprintf("f%d.%s", i, base), DNSType: 1}
+				}
+				var c string
+				if perr := safely(func() { c = workload.Exec(e, &o).Canon() }); perr != "" {
+					return fail("panic:"+opClass(&o), fmt.Sprintf("flood query %s panicked\n%s", o.Key(), perr))
+				}
+				if i%25 == 24 {
+					f, perr := freshOf(&o)
+					if perr != "" {
+						out.Invalid, out.InvalidReason = true, perr
+						ch.End()
+						return out
+					}
+					if c != f.canon {
+						bad = fmt.Sprintf("flood request #%d %s\n after history: %s\n fresh engine:  %s", i, o.Key(), c, f.canon)
+					}
+				}
+			}
+			hist = append(hist, fmt.Sprintf("flood: %d distinct requests under %s", n, base))
+			out.Probes["flood_requests"] += n
+			if bad != "" {
+				return fail("answer-differs:flood", bad)
+			}
+			if o := checkRetained("a flood of distinct requests"); o != nil {
+				return o
+			}
 		case act == 0: // environment: flush the request pool
 			runtime.GC()
 			runtime.GC()
